@@ -60,6 +60,7 @@ type opResult struct {
 	names  []string
 	conn   *simConn
 	resp   any
+	stall  time.Duration // the caller returns this much later (write: the packet has already left)
 }
 
 type op struct {
@@ -99,8 +100,10 @@ type event struct {
 
 type evHeap []event
 
-func (h evHeap) Len() int            { return len(h) }
-func (h evHeap) Less(i, j int) bool  { return h[i].at < h[j].at || (h[i].at == h[j].at && h[i].seq < h[j].seq) }
+func (h evHeap) Len() int { return len(h) }
+func (h evHeap) Less(i, j int) bool {
+	return h[i].at < h[j].at || (h[i].at == h[j].at && h[i].seq < h[j].seq)
+}
 func (h evHeap) Swap(i, j int)       { h[i], h[j] = h[j], h[i] }
 func (h *evHeap) Push(x interface{}) { *h = append(*h, x.(event)) }
 func (h *evHeap) Pop() interface{} {
@@ -193,14 +196,14 @@ type World struct {
 	portSym map[uint16]string
 	nConns  int
 
-	finished   bool
-	FailedNew  []string
+	finished                  bool
+	FailedNew                 []string
 	FreeFailed, FreeEndpoints int // free-running mode: constructions that were failed / attempted
-	Fired      []FiredFault
-	TapeUsed   int
-	Choices    int // decisions with more than one candidate
-	MaxVirtual time.Duration
-	Overran    bool
+	Fired                     []FiredFault
+	TapeUsed                  int
+	Choices                   int // decisions with more than one candidate
+	MaxVirtual                time.Duration
+	Overran                   bool
 }
 
 func (w *World) now() time.Duration { return time.Since(w.T0) }
